@@ -398,6 +398,88 @@ def _block_bases(b, bi, local, _seen=None):
     return out
 
 
+def _option_known_some(b, bi, op):
+    """Reason when the Option operand unwrapped at block bi is Some on every path: it is the local O itself or
+    `O.take()`, an edge on which O was tested Some (is_none false / is_some true / its discriminant) lies on every
+    path here, and nothing may have written O since."""
+    tr = trace(b, op)
+    taker = None
+    o = None
+    if tr.origin and tr.origin[0] == "call" and (fn_of(tr.origin[2]) or {}).get("def") == "std::option::Option::<T>::take" and all(s_[0] == "use" for s_ in tr.steps):
+        taker = tr.origin[1]
+        o = _ref_local(b, tr.origin[2]["args"][0])
+    elif is_place(op) and not op["p"]["pr"]:
+        o = _copy_root(b, op["p"]["l"])
+    if o is None or not b.local_ty(o).startswith("std::option::Option<"):
+        return None
+    # blocks that may write O: its definitions and every call that is handed `&mut O` (other than the take itself)
+    writers = {db for db, _, _, _ in b.whole_defs(o)}
+    for cb_, ct_ in b.calls():
+        if cb_ == taker:
+            continue
+        for a_ in ct_["args"]:
+            if is_place(a_) and not a_["p"]["pr"] and b.local_ty(a_["p"]["l"]).startswith("&mut ") and _ref_local(b, a_) == o:
+                writers.add(cb_)
+    for sb in sorted(b.reach()):
+        sw = b.blocks[sb]["term"]
+        if sw["k"] != "switch" or not is_place(sw["discr"]) or sw["discr"]["p"]["pr"]:
+            continue
+        dt = trace(b, sw["discr"])
+        some_edge = None
+        zero = [x for v, x in sw["targets"] if v == 0]
+        if dt.origin and dt.origin[0] == "call" and (fn_of(dt.origin[2]) or {}).get("def") in ("std::option::Option::<T>::is_none", "std::option::Option::<T>::is_some") and dt.origin[2]["args"] and _ref_local(b, dt.origin[2]["args"][0]) == o and zero:
+            some_edge = (sb, zero[0]) if fn_of(dt.origin[2])["name"] == "is_none" else (sb, sw["otherwise"])
+        else:
+            for s_ in b.blocks[sb]["stmts"]:
+                if s_["k"] == "assign" and not s_["p"]["pr"] and s_["p"]["l"] == sw["discr"]["p"]["l"] and s_["rv"]["k"] == "discr" and not s_["rv"]["p"]["pr"] and s_["rv"]["p"]["l"] == o:
+                    one = [x for v, x in sw["targets"] if v == 1]
+                    some_edge = (sb, one[0]) if one else ((sb, sw["otherwise"]) if zero else None)
+        if some_edge is None:
+            continue
+        starts = [0] + sorted(writers)
+        target = taker if taker is not None else bi
+        if target not in b.reachable_from(starts, removed_edges=[some_edge]):
+            return f"`{b.local_name(o) or o}` was tested to be Some on every path here and is not written in between"
+        # the test may sit under a condition that the unwrapping arm repeats (`if let Stdin = input { if o.is_none() ..`
+        # and later `match input { Stdin => o.take().expect(..)`): decided path-sensitively, for an Option that is only
+        # written outside loops
+        if all(not b.on_cycle(w) for w in writers):
+            from model import PathSens
+
+            sup = Super(b.crate, b, depth=0)
+            ps = PathSens(sup)
+            lab = [v for v, x in sw["targets"] if x == some_edge[1]]
+            label = lab[0] if lab else "otherwise"
+            if ps.edge_dominates(((), sb), label, ((), some_edge[1]), ((), target)) and not ps.overflow:
+                return f"`{b.local_name(o) or o}` was tested to be Some on every feasible path here (path-sensitive) and is only written outside loops"
+    return None
+
+
+def _ref_local(b, op):
+    """The local behind a `&`/`&mut` operand (through copies and reborrows), or None."""
+    cur = op
+    for _ in range(6):
+        if not is_place(cur) or cur["p"]["pr"]:
+            return None
+        ds = b.whole_defs(cur["p"]["l"])
+        if len(ds) != 1 or ds[0][2] != "assign":
+            return None
+        rv = ds[0][3]["rv"]
+        if rv["k"] == "ref":
+            pr = [e for e in rv["p"]["pr"] if e["k"] != "deref"]
+            if pr:
+                return None
+            if not rv["p"]["pr"]:
+                return rv["p"]["l"]
+            cur = {"k": "copy", "p": {"l": rv["p"]["l"], "pr": []}}
+            continue
+        if rv["k"] == "use":
+            cur = rv["op"]
+            continue
+        return None
+    return None
+
+
 def local_proof(b, bi):
     """Reason string when the panic-capable terminator of block bi is dead by a local argument, else None."""
     import ival
@@ -494,6 +576,12 @@ def local_proof(b, bi):
                     stale = any(db != bi and db in between and bi in b.reachable_from(db) for r_ in (root, bound) for db, _, _, _ in b.whole_defs(r_))
                     if not stale:
                         return "the same slice was already cut at the same bound on every path here (the earlier expression would have panicked first)"
+        if k in ("call:option.expect", "call:option.unwrap") and t["args"]:
+            # the Option was just seen to be Some: `if o.is_none() { return/bail } .. o.take().expect(..)` (or the value
+            # itself unwrapped) with nothing writing `o` in between
+            why = _option_known_some(b, bi, t["args"][0])
+            if why:
+                return why
         if k.startswith("call:index:std::ops::RangeFull"):
             return "[..] cannot fail"
         if k in ("call:result.expect", "call:result.unwrap") and t["args"]:
@@ -1145,7 +1233,7 @@ def r04_6(ctx):
 _r046_seen = {}
 
 
-@rule("R04.4", 2, "precondition of the chunker's reviewed slicing/unwrap sites: libyaml is pinned to UTF-8 (byte-accurate marks) before it is given input", ["C04", "C03"])
+@rule("R04.4", 2, "precondition of the chunker's reviewed slicing/unwrap sites: libyaml is pinned to UTF-8 (byte-accurate marks) before it is given input", ["C04", "C03", "C02"])
 def r04_4(ctx):
     lib = ctx.lib
     ctors = [b for b in lib.bodies if any((fn_of(t) or {}).get("name") == "yaml_parser_set_input" for _, t in b.calls())]
